@@ -116,8 +116,8 @@ CLAIMED["C07"] = dict(
          "run of the real multiplexer on loopback UDP sockets in real time (echo servers, closed port, unconnectable address, expiry, "
          "reuse) with direct oracles; a scripted read-side socket error on the single-threaded runtime (peer answers and leaves, client sends once more): a later datagram on the pair gets through and every socket is released; the multiplexer through the real endpoint (CONNECT _udp2 over HTTP/1.1-TLS, HTTP/2-TLS, HTTP/3-QUIC: several flows to two echo peers) and over a SOCKS5 upstream (one association per client source, scripted SOCKS5 server with a relay socket): every reply back with its flow's labels",
     note="partial: sockets, ICMP errors and time are environment operations of the model; idle times are kept 150 ms away from the "
-         "window in which the tick phase decides; the SOCKS5 UDP forwarder's table (socks5_forwarder.rs) is tied by the "
-         "on_connection_closed orientation fact only; trusted: Coq kernel, Model/UdpFlows.v, translator facts, extraction + driver, "
+         "window in which the tick phase decides; the SOCKS5 UDP forwarder's associations table (socks5_forwarder.rs) has its own small model (Model/SocksFlows.v: every live pair recorded under one association, for every history) tied by "
+         "the facts in SocksFacts.v and the end-to-end SOCKS5 runs; trusted: Coq kernel, Model/UdpFlows.v, translator facts, extraction + driver, "
          "harness doors verif::udp / verif::metrics",
     design="DESIGN.md 5 C07")
 
